@@ -373,6 +373,7 @@ def r5(repo, res):
 
     class Cov:
         _fold_ok = True
+        sam = Obj(name="S", _prefix="", path="in.bam", kind="sam")   # the sample the evidence came from (contigs without prefix)
 
         def __getitem__(self, m):
             return support.get(Mut(*m), 0)
@@ -456,6 +457,7 @@ def r6(repo, res):
 
     class Cov:
         _fold_ok = True
+        sam = Obj(name="S", _prefix="", path="in.bam", kind="sam")   # the sample the evidence came from (contigs without prefix)
 
         def __getitem__(self, m):
             return support.get(Mut(*m), 0)
